@@ -83,18 +83,44 @@ Wanted(g, ch, ex) == \/ Thorough \/ ~g.selferr
 \* enough `..` behind the shared prefix to land in `out` itself, one and two levels above it; in both orders, adjacent and
 \* separated by an entry e3 of another directory.  Extraction order = listfile order / command-line order / (patch chain, whole
 \* archive) name order, which is why e1's last component sorts before e2's continuation.
-Shared == {<<"a">>, <<"C">>, <<"a", "U">>, <<"C", "a">>}
+\* SEPARATORS of a pair are three independent zones: st inside the shared prefix, bd at the boundary behind it (written in e1 and
+\* e2 alike: the prefix is shared as TEXT up to and including that separator), ct in e2's continuation ("x" = alternating, starting
+\* with the kind bd is not).  A shortcut keyed by the text of a name (split at one separator kind) sees the continuation of a
+\* mixed name as ONE piece; uniform pairs are blind to it (ASSUMEs below).  The shared prefix may also be empty (top-level entries).
+Shared == {<<>>, <<"a">>, <<"C">>, <<"a", "U">>, <<"C", "a">>}
 Ups(u) == [i \in 1..u |-> "P"]
-Nm(cs, st, ix) == [c |-> cs, s |-> [i \in 1..(Len(cs) - 1) |-> st], ix |-> ix]
-E2Comps(sh) == LET k == Len(sh) IN {sh \o <<"L">> \o Ups(u) \o <<"U">> : u \in (k + 1)..(k + 3)} \cup {sh \o Ups(u) \o <<"U">> : u \in k..(k + 2)}
-PairSeqs == UNION {UNION {UNION {
-               LET e1 == Nm(sh \o <<"C">>, st, 3) e2 == Nm(c2, st, 3) e3 == Nm(<<"U", "a">>, st, 7) IN
-               {<<e1, e2>>, <<e2, e1>>, <<e1, e3, e2>>, <<e1, e2, e3>>}
-               : c2 \in E2Comps(sh)} : st \in Seps} : sh \in Shared}
+OtherSep(x) == IF x = "f" THEN "b" ELSE "f"
+Cts == IF Thorough THEN {"f", "b", "x"} ELSE {"f", "b"}
+CtAt(ct, bd, j) == IF ct \in Seps THEN ct ELSE IF j % 2 = 1 THEN OtherSep(bd) ELSE bd
+SepCombos(k) == {q \in Seps \X Seps \X Cts : (k <= 1 => q[1] = q[2]) /\ (k = 0 => q[2] = "f")}
+NmZ(cs, k, q, ix) == [c |-> cs, s |-> [i \in 1..(Len(cs) - 1) |-> IF i < k THEN q[1] ELSE IF i = k THEN q[2] ELSE CtAt(q[3], q[2], i - k)], ix |-> ix]
+E2Comps(sh) == LET k == Len(sh) lo == IF k = 0 THEN 1 ELSE k IN
+               {sh \o <<"L">> \o Ups(u) \o <<"U">> : u \in (k + 1)..(k + 3)} \cup {sh \o Ups(u) \o <<"U">> : u \in lo..(k + 2)}
+PairsOf(sh, q, c2) == LET k == Len(sh) e1 == NmZ(sh \o <<"C">>, k, q, 3) e2 == NmZ(c2, k, q, 3) e3 == NmZ(<<"U", "a">>, 1, <<q[2], q[2], q[2]>>, 7) IN
+                      {<<e1, e2>>, <<e2, e1>>, <<e1, e3, e2>>, <<e1, e2, e3>>}
+PairSeqs == UNION {UNION {UNION {PairsOf(sh, q, c2) : c2 \in E2Comps(sh)} : q \in SepCombos(Len(sh))} : sh \in Shared}
+MixedPair(q) == \E i \in 1..Len(q) : ~UniformSeps(q[i])
 PairGroups == {[names |-> q, hasroot |-> FALSE, hasparent |-> TRUE, selferr |-> FALSE] : q \in PairSeqs}
-PairProduct == {[names |-> g.names, hasroot |-> g.hasroot, hasparent |-> g.hasparent, selferr |-> g.selferr,
-                 preserve |-> pres, chain |-> ch, explicit |-> ex, entries |-> "present", skipmode |-> "rand"]
-                : g \in PairGroups, pres \in BOOLEAN, ch \in BOOLEAN, ex \in BOOLEAN}
+\* quick: pairs with mixed separators and top-level pairs run with --preserve-paths only (thorough: the full product)
+TopLevel(q) == \E i \in 1..Len(q) : Len(q[i].c) = 1
+PairProduct == {c \in {[names |-> g.names, hasroot |-> g.hasroot, hasparent |-> g.hasparent, selferr |-> g.selferr,
+                        preserve |-> pres, chain |-> ch, explicit |-> ex, entries |-> "present", skipmode |-> "rand"]
+                       : g \in PairGroups, pres \in BOOLEAN, ch \in BOOLEAN, ex \in BOOLEAN}
+                : Thorough \/ c.preserve \/ ~(MixedPair(c.names) \/ TopLevel(c.names))}
+
+\* adequacy of the pair family against the deviation class SepCacheEscapes of PathContain.tla, evaluated by TLC:
+\* (1) no pair written with one separator kind throughout can expose a text-keyed shortcut, whatever kind it splits at ...
+AdjacentPairs == UNION {{<<q[i], q[i + 1]>> : i \in 1..(Len(q) - 1)} : q \in PairSeqs}
+AllSepsAre(n, kind) == \A i \in 1..Len(n.s) : n.s[i] = kind
+ASSUME \A pr \in AdjacentPairs : \A kind \in Seps :
+          (AllSepsAre(pr[1], kind) /\ AllSepsAre(pr[2], kind)) => ~SepCacheEscapes(pr[1], pr[2], kind, ProbeOpt(TRUE))
+\* (2) ... and for every shared prefix and either separator kind the family holds an adjacent pair that does, the directory text
+\* being exactly the shared prefix (the remainder carries the `..` components behind separators of the other kind)
+ASSUME \A sh \in Shared : \A kind \in Seps : \E pr \in AdjacentPairs :
+          /\ Len(pr[1].c) = Len(sh) + 1 /\ SubSeq(pr[1].c, 1, Len(sh)) = sh
+          /\ DirKeyOf(pr[2], kind).c = sh /\ HasParentDir(RestOf(pr[2], kind))
+          /\ SepCacheEscapes(pr[1], pr[2], kind, ProbeOpt(TRUE))
+ASSUME PrintT(<<"PAIRS", Cardinality(PairSeqs), "sequences", Cardinality({q \in PairSeqs : MixedPair(q)}), "with mixed separators", Cardinality(PairProduct), "cases">>)
 
 Product == {[names |-> g.names, hasroot |-> g.hasroot, hasparent |-> g.hasparent, selferr |-> g.selferr,
              preserve |-> pres, chain |-> ch, explicit |-> ex, entries |-> "present", skipmode |-> "rand"]
